@@ -300,14 +300,18 @@ def write_output_document(
         doc.prepare_for_dump(yaml_editor, args.output)
         dumps.append(doc.data)
 
-    if args.backup and exists(args.overwrite):
+    if args.backup:
         backup_file = args.overwrite + ".bak"
         log.verbose(
             "Saving a backup of {} to {}."
             .format(args.overwrite, backup_file))
         if exists(backup_file):
             remove(backup_file)
-        copy2(args.overwrite, backup_file)
+        try:
+            copy2(args.overwrite, backup_file)
+        except FileNotFoundError:
+            # A not yet existing overwrite file has nothing to back up
+            pass
 
     if args.output:
         with open(args.output, 'w', encoding='utf-8') as out_fhnd:
